@@ -3,4 +3,9 @@ package main
 func init() {
 	register("C01", "Decided: register tables, no-operand opcode table, condition codes (T-rules); not decided: form selection on concrete operands.",
 		ruleT1, ruleT2, ruleT3)
+	register("C07", "", ruleT11, ruleE7)
+	register("C09", "", ruleE9)
+	register("C10", "", ruleE1, ruleE2)
+	register("C13", "", ruleE6)
+	register("C19", "", ruleT9, ruleP6)
 }
